@@ -48,3 +48,7 @@ claim('C11', 'Hypothesis-generated segment pairs in constructed crossing/tangent
       'About 1.5k (quick) / 60k (thorough) ordered pairs over all 16 type pairs (arcs circular/elliptic, rotated or not) at three scales; every returned (t1,t2) must be in range and name coincident points within the stated tolerance, swapped operands must report the same interior crossings, Path.intersect tuples must be coherent.',
       'Trusts: point() (C03/C04); exceptions tolerated as the property allows; tangential curved pairs are sampled thinly (seconds each), with a per-case timeout counted as inconclusive.',
       'DESIGN.md 2/C11')
+claim('C12', 'Hypothesis-generated constructed crossings (all type pairs), exact rational root counting (Sturm) for Line/Bezier pairs, and path pairs with harness-located crossings; completeness oracle: each crossing reported exactly once',
+      'About 16k (quick) / 300k (thorough) generated cases of which ~40% survive the general-position filters: constructed transversal crossings must be reported once within 1e-4 in both parameters; Line-Line/Line-Quadratic/Line-Cubic counts must equal the exact count from Sturm sequences over the rationals; every interior transversal crossing of two paths must appear once in Path.intersect.',
+      'Trusts: vp/ref/xgeom.py polyline finder + Newton refinement for locating other crossings, vp/ref/exactgeom.py for exact counts; cases not in general position (end-point contact, near tangency, coincident crossing points, near cusps) are discarded and counted.',
+      'DESIGN.md 2/C12')
